@@ -704,6 +704,7 @@ Emit == Done => PrintT(ToJson([cfg |-> cfg, mode |-> Mode, log |-> log, outcome 
                                  inv |-> [FinalExcessNonPositive |-> FinalExcessNonPositive, HeightInBounds |-> HeightInBounds,
                                           CapRespected |-> CapRespected, Known_F16 |-> Known_F16, OnlyValueError |-> OnlyValueError,
                                           UnmetPolicy |-> UnmetPolicy, UnmetPolicy1D |-> UnmetPolicy1D, UnmetPolicyRW |-> UnmetPolicyRW,
-                                          NoLessDrillingEvaluated |-> NoLessDrillingEvaluated,
+                                          NoLessDrillingEvaluated |-> NoLessDrillingEvaluated, PredecessorFails |-> PredecessorFails,
+                                          FirstFeasibleIfMonotone |-> FirstFeasibleIfMonotone,
                                           RootUnlessClamped |-> RootUnlessClamped, ReportedIsLastSim |-> ReportedIsLastSim]]))
 =============================================================================
